@@ -30,6 +30,16 @@ func (r *reader) eof() bool {
 	return len(r.m) == 0
 }
 
+// pending returns the number of values which were not read yet.
+func (r *reader) pending() int {
+	n := 0
+	for _, list := range r.m {
+		n += len(list)
+	}
+
+	return n
+}
+
 func (r *reader) len(tag byte) int {
 	if list := r.m[tag]; list != nil && len(list) > 0 {
 		return len(list[0])
